@@ -83,9 +83,17 @@ def run(ctx):
     import chempy  # noqa
     slices = QUICK if ctx.quick else THOROUGH
     per_slice = 2500 if ctx.quick else None
-    for sl in slices:
-        res = ctx.tlc("Formula_MC", "Formula_MC_%s.cfg" % sl, require_actions=ACTIONS.get(sl, ()),
-                      require_cases=100, timeout=1500)
+    for sl in slices + ["sim"]:
+        if sl == "sim":   # deep random behaviours of the full-alphabet grammar (tlc -simulate)
+            res = ctx.tlc("Formula_MC", "Formula_MC_sim.cfg", simulate="num=%d" % (150 if ctx.quick else 4000),
+                          depth=30, seed=ctx.seed + 7, workers=4, require_cases=100, timeout=1500)
+            uniq = {}
+            for c in res.cases:
+                uniq.setdefault(c["in"]["txt"], c)
+            res.cases = list(uniq.values())
+        else:
+            res = ctx.tlc("Formula_MC", "Formula_MC_%s.cfg" % sl, require_actions=ACTIONS.get(sl, ()),
+                          require_cases=100, timeout=1500)
         cases = res.cases
         sel = ctx.pick(cases, per_slice, always=lambda c: c["cls"].startswith("fault") and ctx.quick and False)
         outs = ctx.pmap(replay_case, sel)
